@@ -9,6 +9,10 @@ TB = ("TLC 1.8 and the hand-written specification (spec/*.tla); the conformance 
       "inputs by the small-scope arguments of DESIGN.md 2.5")
 
 CHECKS = {
+ "C18": ("model_checking", "TLC explores every interleaving of the Sharing model (threads x shared immutable block x atomic count x guarded static, micro-step granularity): no read of freed storage, count = live handles, freed exactly once, every thread's values equal its sequential values, termination under weak fairness; the three negative controls (non-atomic count, unguarded static, shared scratch) must be rejected. On the code: 2..16 threads run the TLC-generated cases simultaneously on shared const operands/operators/forms; per-thread logs must be identical to the sequential log (exact scalar as text, double as bit patterns), logs are validated by TLC against the sequential contracts, use counts must return to the pre-spawn values, and the ThreadSanitizer build observes races.", "5 C18",
+         "TLA+ model of the sharing protocol (all interleavings, liveness, negative controls) + threaded replay of TLC-generated cases with per-thread trace validation and TSan observer"),
+ "C20": ("other", "TLC checks the diffusion solver's skeleton (move out first/last, erase first, remove last, assemble) against std::vector's preconditions for every basis size and must reject the pinned erase(end()); the repository's own example objects are run on TLC-enumerated admissible inputs in a plain build and under ASan/UBSan/_GLIBCXX_DEBUG, and the stated contracts (boundary values, scale invariance, straight line, eigenvalue shift, n+1/2, -1/n^2) are compared with tolerance.", "5 C20",
+         "TLA+ skeleton of the example algorithm checked by TLC + conformance runs of the example objects on TLC-enumerated inputs with sanitizer observers and tolerances"),
  "C09": ("model_checking", "The specification states the index-bounds obligations (every Level-I lookup goes through a checked index; checked accessors refuse every index outside the view over the whole model word) and TLC checks them; the TLC-generated cases of ALL families (supports, splines, generator, interpolation, operator expressions with every factor placement, forms, histories) are replayed in a build with ASan + UBSan + libstdc++ assertions, where an observer report becomes an event no specification action explains; the accessor contract incl. indices 2^64-k is validated by TLC.", "5 C09",
          "TLA+ index/bounds invariants checked by TLC + replay of all TLC-generated executions under sanitizer observers + trace validation"),
  "C12": ("model_checking", "TLC emits abscissa windows of uniform and strongly non-uniform grids, ordinates, orders 1..3(4) and boundary sets (default, one-sided, mixed, invalid); the real interpolate<Rat, order, exact Gauss solver> runs every case and TLC accepts the returned spline iff InterpPost holds exactly (node values from both adjacent pieces, continuity of derivatives 1..order-1, every boundary row) and the ISolver protocol was followed; a singular report is accepted only outside the sets shown uniquely solvable. The bundled dense (Eigen) route is covered through C20's examples and the floating families, not claimed here.", "5 C12",
